@@ -201,6 +201,9 @@ func runC10Order(c *Ctx) {
 								}
 							}
 						}
+						if !isMinMax {
+							isMinMax = sentinelMinMax(phi, lf, inLoop)
+						}
 						if isMinMax {
 							continue
 						}
@@ -748,4 +751,153 @@ func onlyCalledOnWalkLeaves(c *Ctx, f *ssa.Function) bool {
 		}
 	}
 	return true
+}
+
+// sentinelMinMax recognises `if acc == S || x < acc { acc = x }` (or >): a running minimum
+// / maximum whose "nothing yet" state is the constant S the accumulator starts from. Every
+// way into the assigning block is either the comparison of x with the accumulator or the
+// test of the accumulator against S, and x itself can never equal S there (integer
+// bounds), so S is not confused with an element. The result is the extreme of the
+// elements, whatever the order they come in.
+func sentinelMinMax(phi *ssa.Phi, lf ssa.Value, inLoop func(*ssa.BasicBlock) bool) bool {
+	ok, _, _ := sentinelMinMaxDir(phi, lf, inLoop)
+	return ok
+}
+
+// sentinelMinMaxDir also tells whether the idiom keeps the minimum, and the smallest
+// element value admitted to it (when the elements are filtered by a lower bound only).
+func sentinelMinMaxDir(phi *ssa.Phi, lf ssa.Value, inLoop func(*ssa.BasicBlock) bool) (isIdiom, isMin bool, admitsFrom int64) {
+	// the accumulator's value before the loop
+	var init *ssa.Const
+	for i, e := range phi.Edges {
+		if inLoop(phi.Block().Preds[i]) {
+			continue
+		}
+		k, ok := e.(*ssa.Const)
+		if !ok || init != nil {
+			return false, false, 0
+		}
+		init = k
+	}
+	sent, ok := constInt(init)
+	if init == nil || !ok {
+		return false, false, 0
+	}
+	found := false
+	mins, maxs := 0, 0
+	admits := int64(0)
+	var entersWith func(b *ssa.BasicBlock, v ssa.Value, d int) []*ssa.BasicBlock
+	// blocks from which the value lf is carried towards the header phi
+	entersWith = func(b *ssa.BasicBlock, v ssa.Value, d int) []*ssa.BasicBlock {
+		var out []*ssa.BasicBlock
+		p2, ok := v.(*ssa.Phi)
+		if !ok || d > 4 {
+			return nil
+		}
+		for i, e := range p2.Edges {
+			pred := p2.Block().Preds[i]
+			if !inLoop(pred) {
+				continue
+			}
+			if e == lf {
+				out = append(out, pred)
+			} else if _, isPhi := e.(*ssa.Phi); isPhi && e != ssa.Value(phi) {
+				out = append(out, entersWith(pred, e, d+1)...)
+			}
+		}
+		return out
+	}
+	for _, ab := range entersWith(phi.Block(), phi, 0) {
+		// ab carries acc = x; it must do nothing else, and be entered only through
+		// the two kinds of test
+		if len(ab.Instrs) != 1 || len(ab.Preds) == 0 {
+			return false, false, 0
+		}
+		cmp := 0
+		for _, q := range ab.Preds {
+			iff, ok := q.Instrs[len(q.Instrs)-1].(*ssa.If)
+			if !ok {
+				return false, false, 0
+			}
+			bo, ok := iff.Cond.(*ssa.BinOp)
+			if !ok {
+				return false, false, 0
+			}
+			onTrue := q.Succs[0] == ab
+			if q.Succs[0] == q.Succs[1] {
+				return false, false, 0
+			}
+			switch bo.Op {
+			case token.LSS, token.LEQ, token.GTR, token.GEQ:
+				if !onTrue {
+					return false, false, 0
+				}
+				if (sameQuantity(bo.X, lf) && stripConv(bo.Y) == ssa.Value(phi)) || (sameQuantity(bo.Y, lf) && stripConv(bo.X) == ssa.Value(phi)) {
+					cmp++
+					less := bo.Op == token.LSS || bo.Op == token.LEQ
+					if less == sameQuantity(bo.X, lf) {
+						mins++
+					} else {
+						maxs++
+					}
+					continue
+				}
+				return false, false, 0
+			case token.EQL, token.NEQ:
+				if onTrue != (bo.Op == token.EQL) {
+					return false, false, 0
+				}
+				var other ssa.Value
+				switch {
+				case stripConv(bo.X) == ssa.Value(phi):
+					other = bo.Y
+				case stripConv(bo.Y) == ssa.Value(phi):
+					other = bo.X
+				default:
+					return false, false, 0
+				}
+				if k, ok := constInt(stripConv(other)); !ok || k != sent {
+					return false, false, 0
+				}
+			default:
+				return false, false, 0
+			}
+		}
+		if cmp == 0 {
+			return false, false, 0
+		}
+		// x can never be the sentinel
+		lo, hi, hasLo, hasHi := intBounds(ab.Instrs[0], lf)
+		if !(hasLo && lo > sent) && !(hasHi && hi < sent) {
+			return false, false, 0
+		}
+		if hasLo && !hasHi {
+			admits = lo
+		} else {
+			admits = -1 << 62
+		}
+		// "admits from lo" only when nothing else filters the elements: every test
+		// inside the loop that the assignment depends on compares x with a constant
+		for _, g := range guardsAt(ab.Instrs[0]) {
+			gi, isIn := g.Cond.(ssa.Instruction)
+			if !isIn || gi.Block() == phi.Block() || !inLoop(gi.Block()) {
+				continue
+			}
+			bo, isBo := g.Cond.(*ssa.BinOp)
+			plain := false
+			if isBo {
+				_, kx := constInt(stripConv(bo.X))
+				_, ky := constInt(stripConv(bo.Y))
+				plain = (sameQuantity(bo.X, lf) && ky) || (sameQuantity(bo.Y, lf) && kx)
+			}
+			if !plain {
+				admits = -1 << 62
+			}
+		}
+		found = true
+	}
+	if mins > 0 && maxs > 0 {
+		return false, false, 0
+	}
+	return found, mins > 0, admits
 }
